@@ -248,13 +248,17 @@ func newSession(tables []hist.Table, serverID uint32, start hist.Pos) (*session,
 	return newSessionNet(tables, serverID, start, "tcp")
 }
 
-func newSessionNet(tables []hist.Table, serverID uint32, start hist.Pos, network string) (*session, error) {
+func newSessionNet(tables []hist.Table, serverID uint32, start hist.Pos, network string, dsnParams ...string) (*session, error) {
 	m, err := fakemaster.New()
 	if err != nil {
 		return nil, err
 	}
 	mp := newMapper(tables)
-	s, err := gobinlog.NewStreamer(m.DSNNet(network), serverID, mp)
+	dsn := m.DSNNet(network)
+	if len(dsnParams) > 0 {
+		dsn += "?" + strings.Join(dsnParams, "&")
+	}
+	s, err := gobinlog.NewStreamer(dsn, serverID, mp)
 	if err != nil {
 		m.Close()
 		return nil, err
